@@ -198,8 +198,10 @@ def run(chk, repo):
             for st_ in stmts:
                 if isinstance(st_, ast.Assign) and len(st_.targets) == 1 and isinstance(st_.targets[0], ast.Name):
                     v_ = R().visit(ast.parse(unparse(st_.value), mode="eval").body)
-                    if isinstance(v_, ast.Call) and canon_call(imod, v_) == "struct.Struct" and v_.args:
-                        found.append(v_.args[0])
+                    for c_ in ast.walk(v_):
+                        if isinstance(c_, ast.Call) and canon_call(imod, c_) == "struct.Struct" and c_.args:
+                            found.append(c_.args[0])
+                            break
                     env[st_.targets[0].id] = v_
                 elif isinstance(st_, ast.If):
                     d = decide(st_.test)
@@ -239,8 +241,32 @@ def run(chk, repo):
                why="format must be the byte order character (when given) followed by the count (chunks.size by default) "
                    "and the type code", node=cs)
     lp = [s for s in sb if isinstance(s, ast.For)]
-    ok = len(lp) == 1 and unparse(lp[0].iter) == "blocks(seq, size, padval=padval)" \
-        and [unparse(s) for s in lp[0].body] == ["yield s.pack(*%s)" % unparse(lp[0].target)]
+    loc_s = {unparse(a_.targets[0]): a_.value for a_ in sb if isinstance(a_, ast.Assign) and len(a_.targets) == 1}
+
+    def is_pack(e):
+        """expression evaluating to the pack method of the Struct built above"""
+        if isinstance(e, ast.Name) and e.id in loc_s:
+            return is_pack(loc_s[e.id])
+        if isinstance(e, ast.Attribute) and e.attr == "pack":
+            b_ = e.value
+            if isinstance(b_, ast.Name) and b_.id in loc_s:
+                b_ = loc_s[b_.id]
+            return isinstance(b_, ast.Call) and canon_call(imod, b_) == "struct.Struct"
+        return False
+    ok = len(lp) == 1 and len(lp[0].body) == 1 and isinstance(lp[0].body[0], ast.Expr) and isinstance(lp[0].body[0].value, ast.Yield)
+    if ok:
+        tv = unparse(lp[0].target)
+        yv = lp[0].body[0].value.value
+        it_ = lp[0].iter
+        if unparse(it_) == "blocks(seq, size, padval=padval)":
+            ok = isinstance(yv, ast.Call) and is_pack(yv.func) and [unparse(a_) for a_ in yv.args] == ["*" + tv] and not yv.keywords
+        elif isinstance(it_, ast.Call) and unparse(it_.func) in ("xmap", "map") and len(it_.args) == 2 \
+                and unparse(it_.args[1]) == "blocks(seq, size, padval=padval)" and unparse(yv) == tv:
+            f_ = it_.args[0]
+            ok = isinstance(f_, ast.Lambda) and len(f_.args.args) == 1 and isinstance(f_.body, ast.Call) and is_pack(f_.body.func) \
+                and [unparse(a_) for a_ in f_.body.args] == ["*" + f_.args.args[0].arg] and not f_.body.keywords
+        else:
+            ok = False
     chk.decide(ok, "C18.struct", WI("chunks[struct]"), short(lp[0]) if lp else "loop missing",
                why="every block (padded with padval) must be packed once", node=cs)
 
@@ -301,7 +327,8 @@ def run(chk, repo):
                    "restarts at 0", node=ca)
     tail = ab[-1]
     ok = isinstance(tail, ast.If) and unparse(tail.test) == "idx != 0" \
-        and [unparse(s) for s in tail.body] == ["for idx in xrange(idx, size):\n    chunk[idx] = padval", "yield export()"]
+        and [unparse(s) for s in tail.body] in (["for idx in xrange(idx, size):\n    chunk[idx] = padval", "yield export()"],
+                                                ["while idx < size:\n    chunk[idx] = padval\n    idx += 1", "yield export()"])
     chk.decide(ok, "C18.array", WI("chunks[array]"), "tail: " + short(tail, 120),
                why="a partial last chunk is padded with padval up to `size` and exported once", node=tail)
 
@@ -412,6 +439,15 @@ def run(chk, repo):
     ok = "if self.channels == 1:\n        return block_reader()" in stx and "sample_width = self.bits // 8" in stx \
         and "yield el[:sample_width]" in stx and "yield el[sample_width:]" in stx \
         and stx.index("yield el[:sample_width]") < stx.index("yield el[sample_width:]")
+    if not ok and "if self.channels == 1:\n        return block_reader()" in stx and "sample_width = self.bits // 8" in stx:
+        # chain.from_iterable over (left, right) pairs of every frame: the same interleaving
+        ch = [n for n in ast.walk(sr) if isinstance(n, ast.Call) and unparse(n.func) in ("it.chain.from_iterable", "chain.from_iterable")]
+        if len(ch) == 1 and len(ch[0].args) == 1 and isinstance(ch[0].args[0], (ast.GeneratorExp, ast.ListComp)):
+            g_ = ch[0].args[0]
+            v_ = unparse(g_.generators[0].target)
+            ok = len(g_.generators) == 1 and not g_.generators[0].ifs and unparse(g_.generators[0].iter) == "block_reader()" \
+                and isinstance(g_.elt, (ast.Tuple, ast.List)) \
+                and [unparse(e_) for e_ in g_.elt.elts] == ["%s[:sample_width]" % v_, "%s[sample_width:]" % v_]
     chk.decide(ok, "C18.decode", WW("WavStream.sample_reader"), "mono frames as they are; stereo frames split at the "
                "sample width, left then right", why="channels must be interleaved in order", node=sr)
     bb = docstring_free(br.body)
@@ -421,6 +457,14 @@ def run(chk, repo):
     if ok:
         wl = [s for s in tr[0].body if isinstance(s, ast.While)][0]
         ok = [unparse(s) for s in wl.body] == ["el = w.readframes(1)", "if not el:\n    break", "yield el"]
+    elif len(tr) == 1 and tr[0].finalbody and [unparse(s) for s in tr[0].finalbody] == [
+            "%s.close()" % (unparse(alias[0].targets[0]) if alias else "w")] and len(tr[0].body) == 1 \
+            and isinstance(tr[0].body[0], ast.For):
+        # for el in iter(lambda: w.readframes(1), b''): yield el      - frames until the empty one
+        fl_ = tr[0].body[0]
+        wn_ = unparse(alias[0].targets[0]) if alias else "w"
+        ok = unparse(fl_.iter) == "iter(lambda: %s.readframes(1), b'')" % wn_ \
+            and [unparse(s) for s in fl_.body] == ["yield %s" % unparse(fl_.target)]
     chk.decide(ok, "C18.decode", WW("WavStream.block_reader"), "read one frame at a time until empty; close() in finally",
                why="the file must be closed once the stream is exhausted (or abandoned), and frames read in order", node=br)
     chk.rule("C18.close", "every read of frames (any use of .readframes) sits inside a try whose finally closes the wave file")
